@@ -144,9 +144,28 @@ def run(ctx):
                 ctx.fail('oracle', c, impl=ri, model=rm, expect=f'regs={b[0]} vals={b[1]} frames={b[2]}', note=f'the {c[3]} instruction on {c[2]} changes the stacks by regs={a[0]} vals={a[1]} frames={a[2]}; its arity is regs={b[0]} vals={b[1]} frames={b[2]}')
         stats['OP arity comparisons'] = nar
         ctx.evaluations += len(ocases)
+    # executions with the host COMPACTING the data object between steps (BasicGarnishData::optimize at every step boundary, once at
+    # each boundary, twice in a row): the programs are calls that push every kind of frame cell (with / without pending operands, at
+    # top level and nested); the run must end with the value and the stack depths of the run without compaction
+    if not ctx.replay:
+        from gen import optgen
+        base_ = [c for c in optgen.run_base_cases() if int(c[1][3:].split('.')[0]) >= 24]
+        bres_ = vlib.run_impl(base_, 'c06_optbase', per_case_s=10.0)
+        rc_ = [c for c in optgen.gen_run_cases(optgen.steps_of(bres_)) if int(c[1][3:].split('.')[0]) >= 24 and ('.k' in c[1] or '.every' in c[1] or '.twice' in c[1])]
+        ri_ = vlib.run_impl(rc_, 'c06_optrun', per_case_s=10.0)
+        nrun_ = 0
+        for c in rc_:
+            nrun_ += 1
+            ctx.distinct.add(('compaction', c[3], c[5]))
+            f_ = optgen.oracle_detail(c, ri_.get(c[1], 'MISSING'))
+            if f_:
+                cls_ = '; '.join(str(x[0]) if isinstance(x, (list, tuple)) else str(x) for x in f_[:3])
+                ctx.fail('oracle', c, impl=ri_.get(c[1], '')[:400], model=None, expect='the result and stack depths of the run without compaction', note=f'with the data object compacted between steps ({c[5]}) the program {vlib.unesc(c[3])!r} no longer computes its value: {cls_}')
+        ctx.evaluations += len(rc_)
+        ctx.suites = dict(ctx.suites or {}, **{'OPT.run (compaction between steps, call shapes)': nrun_})
     ctx.rule = ('RUN/PROG cases: generated core-language programs (small-exhaustive + random, no bare `;;`) on both stores with a per-step monitor in the harness: operand count relative to the frame base recorded per instruction address (conflict = two paths reach it with different depths), never negative, exactly 1 when EndExpression executes; the input-value stack never shorter than at the start; '
                 'on completion registers, input-value stack and frame chain back at their initial depths; the verified abstract interpretation absDepth is run on every built instruction stream (all paths) and every observed (address, depth) pair must equal its result; reapply loops with iteration counts 0..N (must complete, in steps linear in N); the stack deltas of every single instruction on every operand type pair (OP matrix) against the model`s arity; distinct = distinct (source, store).')
-    ctx.suites = {'RUN': len(cases), 'outcomes': stats}
+    ctx.suites = dict(ctx.suites or {}, **{'RUN': len(cases), 'outcomes': stats})
     if progs:
         ctx.distribution = progsuite.feature_distribution(progs)
     for c in cases[:: max(1, len(cases) // 6)][:6]:
